@@ -129,16 +129,16 @@ Section ByronAddrProofs.
   Qed.
 
   (* the path codec under the AEAD *)
-  Theorem decrypt_encrypt_path key path : path <> [] -> Forall (fun i => i < 2 ^ 32) path ->
+  Theorem decrypt_encrypt_path key path : Forall (fun i => i < 2 ^ 32) path ->
     decrypt_path key (encrypt_path key path) = Ok path.
   Proof.
-    intros NE H. unfold AddrAdaByron.decrypt_path, AddrAdaByron.encrypt_path.
+    intros H. unfold AddrAdaByron.decrypt_path, AddrAdaByron.encrypt_path.
     destruct chacha_lens as (-> & _).
     rewrite chacha_dec_enc by (unfold indef_encode; repeat (apply bytes_ok_app; split);
                                [repeat constructor; lia|apply concat_ok, Forall_forall; intros x Hx;
                                 apply in_map_iff in Hx; destruct Hx as (y & <- & _); apply cbor_uint_ok|repeat constructor; lia]).
     cbn [of_option bind Ok Err].
-    rewrite indef_decode_encode; [|exact NE|].
+    rewrite indef_decode_encode.
     2:{ eapply Forall_impl; [|exact H]. intros a Ha. cbv beta in *. assert (2 ^ 32 < 2 ^ 64) by reflexivity. lia. }
     cbn [bind Ok Err].
     replace (forallb path_index_ok path) with true; [reflexivity|].
@@ -187,7 +187,7 @@ Section ByronAddrProofs.
       match goal with |- context [skipn _ (?r ++ _)] => set (rh := r) end.
       assert (Lrh : length rh = 28%nat) by (unfold rh, AddrAdaByron.root_hash; apply blake_len).
       rewrite ada_keyhash_len_28, <- Lrh, skipn_app, Nat.sub_diag, skipn_all. cbn [skipn app].
-      apply decrypt_encrypt_path; [discriminate|].
+      apply decrypt_encrypt_path.
       repeat constructor; change (2 ^ 32) with (Z.to_N (2 ^ 32)); apply Z2N.inj_lt; lia.
     Qed.
   End Wallet.
